@@ -26,7 +26,7 @@ func (e *Engine) ghostArr(st *State, name string, s Sort) *Term {
 	return e.tb.Const("G0!"+name, s)
 }
 
-var ghostSorts = map[string]Sort{"setbyteslen": SInt, "closed": SArrB, "sends": SArrI, "held": SArrB, "kvput": SArrB, "kvdel": SArrB, "kvapplied": SArrI, "kvbatch": SArrB, "marks": SArrB, "ctxdone": SArrB}
+var ghostSorts = map[string]Sort{"setbyteslen": SInt, "closed": SArrB, "sends": SArrI, "held": SArrB, "kvput": SArrB, "kvdel": SArrB, "kvapplied": SArrI, "kvbatch": SArrB, "marks": SArrB, "ctxdone": SArrB, "ctxbounded": SArrB}
 
 func (e *Engine) setGhost(st *State, name string, t *Term) {
 	st.Ghost[name] = t
@@ -283,6 +283,31 @@ func init() {
 	for _, n := range []string{"context.Background", "context.TODO", "context.WithTimeout", "context.WithCancel", "context.WithDeadline", "context.WithValue",
 		"(*polycry.pt/poly-go/sync.Closer).Ctx"} {
 		libSpecs[n] = nonNilIface("ctx")
+	}
+	// deadlines: ghost flag "ctxbounded" per context value. WithTimeout/WithDeadline yield a bounded context, WithCancel/WithValue
+	// inherit the flag of their parent, everything else (Background, a Closer's life-time context) is unknown.
+	for _, n := range []string{"context.WithTimeout", "context.WithDeadline", "context.WithCancel", "context.WithValue"} {
+		n := n
+		base := libSpecs[n]
+		libSpecs[n] = func(e *Engine, st *State, fn *ssa.Function, args []Val, pos token.Pos, k Kont) {
+			base(e, st, fn, args, pos, func(st *State, res Val) {
+				tb := e.tb
+				r0 := res
+				if res.Elems != nil {
+					r0 = res.Elems[0]
+				}
+				if len(r0.T) == 2 {
+					cb := e.ghostArr(st, "ctxbounded", SArrB)
+					key := tb.App("ctxkey", SInt, r0.ifTag(), r0.ifVal())
+					var flag *Term = tb.True()
+					if (n == "context.WithCancel" || n == "context.WithValue") && len(args) > 0 && len(args[0].T) == 2 {
+						flag = tb.Select(cb, tb.App("ctxkey", SInt, args[0].ifTag(), args[0].ifVal()))
+					}
+					e.setGhost(st, "ctxbounded", tb.Store(cb, key, flag))
+				}
+				k(st, res)
+			})
+		}
 	}
 	for _, n := range []string{"Err", "Done", "Deadline", "Value"} {
 		n := n
